@@ -2,7 +2,8 @@
    Model/Relabel.v is a hand-written executable model of relabeling.py over Lib/Fl64.v (binary64 as exact
    integer arithmetic); it is compared bit for bit with the implementation on every run.  Statements only;
    proofs are in Proofs/Fl64_proofs.v, Sort_by_proofs.v, Relabel_check_proofs.v, Relabel_ungroup_proofs.v,
-   Relabel_total_proofs.v, Fl64_mono_proofs.v, Relabel_plain_proofs.v, Relabel_plain2_proofs.v.
+   Relabel_total_proofs.v, Fl64_mono_proofs.v, Relabel_plain_proofs.v, Relabel_plain2_proofs.v,
+   Relabel_renumber_proofs.v.
 
    [Spec orig keys adj ins] is the property's postcondition for one call (Model/Relabel.v): adjustments name
    existing rows once each with finite values; existing rows keep their order (strictly where they were
@@ -14,7 +15,8 @@ Import ListNotations.
 Require Import Grist.Lib.Fl64 Grist.Model.Relabel.
 Require Import Grist.Proofs.Fl64_proofs Grist.Proofs.Fl64_mono_proofs Grist.Proofs.Relabel_check_proofs
                Grist.Proofs.Relabel_ungroup_proofs Grist.Proofs.Relabel_total_proofs
-               Grist.Proofs.Relabel_plain_proofs Grist.Proofs.Relabel_plain2_proofs.
+               Grist.Proofs.Relabel_plain_proofs Grist.Proofs.Relabel_plain2_proofs
+               Grist.Proofs.Relabel_renumber_proofs.
 Open Scope Z_scope.
 
 (* ---- 1. the certified checker: for ALL inputs and ALL candidate results, acceptance implies the
@@ -141,6 +143,24 @@ Theorem C20_total_no_renumbering_partial : forall orig keys,
   Spec orig keys [] (ungroup keys (plain_result orig keys)).
 Proof. exact total_plain. Qed.
 
+(* (iii) The simple renumbering path (_adjust_all, as in test_relabeling.test_with_invalid): every request lands
+   before the first existing row and that row's position is invalid -- <= 0 or +inf, but not -inf (see (d)
+   above) -- so everything is renumbered: for ALL such inputs no exception, the new rows get 1..c in request
+   order, existing row j gets c+1+j, and Spec holds. *)
+Theorem C20_total_renumber_front_partial : forall orig keys x0 rest,
+  Pre orig keys -> keys <> [] -> orig = x0 :: rest ->
+  (forall k, In k keys -> flt x0 k = false) ->
+  (fle x0 fzero = true \/ x0 = FInf false) -> flt fneginf x0 = true ->
+  Z.of_nat (length orig + length keys) + 1 < 2 ^ 53 ->
+  let c := length keys in
+  let adj := map (fun j => (Z.of_nat j, fint (Z.of_nat (1 + c + j)))) (seq 0 (length orig)) in
+  let news := map (fun j => fint (Z.of_nat j)) (seq 1 c) in
+  prepare_inserts_model orig keys = Ok (adj, ungroup keys news) /\ Spec orig keys adj (ungroup keys news).
+Proof.
+  intros orig keys x0 rest HPre Hk Ho Hfirst Hinv Hnn Hsmall.
+  exact (total_renumber_front orig keys HPre Hk x0 rest Ho Hfirst Hinv Hnn Hsmall).
+Qed.
+
 (* the arithmetic behind it, for all doubles: rounding to nearest-even is monotone, and prevfloat(u) is the
    largest double below u *)
 Theorem C20_rounding_monotone : forall n1 n2 s, 0 <= s -> 0 <= n1 <= n2 ->
@@ -183,6 +203,16 @@ Proof.
   cbv zeta. split; [apply check_pre_sound; vm_compute; reflexivity|].
   split; [repeat (constructor; [apply wf_flb_sound; vm_compute; reflexivity|]); constructor|].
   split; vm_compute; reflexivity.
+Qed.
+
+Example C20_renumber_front_nonvacuous :
+  let orig := [fzero; fzero; f1] in let keys := [fzero; FInf true] in     (* rows at 0, 0, 1; requests 0.0 and -inf *)
+  Pre orig keys /\ (forall k, In k keys -> flt fzero k = false) /\ fle fzero fzero = true /\ flt fneginf fzero = true /\
+  prepare_inserts_model orig keys = Ok ([(0, f3); (1, d 4616189618054758400); (2, d 4617315517961601024)], [f2; f1]).
+Proof.
+  cbv zeta. split; [apply check_pre_sound; vm_compute; reflexivity|].
+  split; [intros k [<-|[<-|[]]]; vm_compute; reflexivity|].
+  repeat split; vm_compute; reflexivity.
 Qed.
 
 Example C20_history_nonvacuous :
